@@ -67,7 +67,7 @@ ALL_CLAIMS = {
         "design_ref": "DESIGN.md section 5 (C19)",
     },
 }
-BUILT = ["C01", "C02", "C03", "C06", "C11", "C12", "C15", "C16", "C17", "C19"]
+BUILT = ["C01", "C02", "C03", "C06", "C07", "C11", "C12", "C15", "C16", "C17", "C19"]
 CLAIMED = {k: {**v, "technique": TECH} for k, v in ALL_CLAIMS.items() if k in BUILT}
 
 PENDING = {k: "intended claim (DESIGN.md section 5); the check is not built yet in this commit" for k in ALL_CLAIMS if k not in BUILT}
